@@ -1145,9 +1145,9 @@ Proof.
   destruct e; cbn [step started_by fst] in *.
   - (* command *)
     specialize (Hfr q eq_refl). unfold on_cmd.
-    assert (St : forall lk qr kd nd kn, OInv (start_lookup g s q lk qr (lcfg g kd nd kn dists) seeds) (q :: seen)).
+    assert (St : forall lk qr kd nd kn kp, OInv (start_lookup g s q lk qr (lcfg g kd nd kn kp dists) seeds) (q :: seen)).
     { intros. unfold start_lookup. apply OInv_new; [exact HI | exact Hfr |]. apply LI1_init. cbn [lcfg L.c_local]. exact Hok. }
-    destruct c as [| qr | qr | qr local | | qr]; cbn [fst]; try apply St.
+    destruct c as [| qr | qr | qr local | kp0 | qr]; cbn [fst]; try apply St.
     destruct qr; destruct local; cbn [fst]; first [apply St | apply OInv_seen_mono; exact HI].
   - specialize (Hfr q eq_refl). apply OInv_new; [exact HI | exact Hfr | exact Hok].
   - exact HI.
